@@ -46,7 +46,7 @@ def csch_validated(x, extra_of=None) -> str:
     known_fields = {"type", "nullable", "enum", "anyOf", "oneOf", "allOf", "items", "schema_format", "default", "const", "properties", "title"}
     o = ("{| o_const := %s; o_props := %s; o_title := %s; o_extra := %s |}"
          % (cbool(x.const is not None), cbool(bool(x.properties)), copt(x.title, cstr), cbool(any(f not in known_fields for f in fs))))
-    return f"(SSch {ty} false {en} {lst(x.anyOf)} {lst(x.oneOf)} {lst(x.allOf)} {items} {fmt} {d} {o})"
+    return f"(SSch {ty} {cbool(bool(x.nullable))} {en} {lst(x.anyOf)} {lst(x.oneOf)} {lst(x.allOf)} {items} {fmt} {d} {o})"
 
 
 # ------------------------------------------------------------------ property object -> Coq tree
@@ -276,7 +276,8 @@ class SGen:
             {"type": ["string", "null"], "nullable": True, "enum": ["a", None], "anyOf": [{"type": "integer"}]},
             {"const": "c", "type": "string", "nullable": True},
             {"const": 5},
-            {"allOf": [{"$ref": REF + "R"}, {"type": "object", "properties": {"k": {"type": "string"}}}], "nullable": True},
+            {"allOf": [{"type": "object", "properties": {"k": {"type": "string"}}}], "nullable": True},
+            {"allOf": [{"type": "object", "properties": {"k": {"type": "string"}}}, {"type": "object", "properties": {"j": {"type": "string"}}}]},
             {"properties": {"k": {"type": "string"}}},
             {"properties": {"k": {"type": "string"}}, "nullable": True},
             {},
